@@ -1065,59 +1065,3 @@ Print Assumptions open_raw_list.
 Print Assumptions open_resolved_list.
 Print Assumptions open_override_wins_list.
 
-(* ====================================================================================================== *)
-(* Part 9.  The hypotheses are satisfiable: the theorems applied to concrete records. *)
-
-Ltac vmc := vm_compute; reflexivity.
-
-(* (A) DER encoder, BER decoder; [APPLICATION 3] EXPLICIT SEQUENCE { id OBJECT IDENTIFIER, flag BOOLEAN OPTIONAL,
-       value [0] EXPLICIT ANY DEFINED BY id OPTIONAL }; the inner value is a SEQUENCE { INTEGER, BOOLEAN } *)
-Definition exA_ty : ty :=
-  TExp (mkTag Appl false 3) (TSeq [(Req, TOid); (Opt, TBool); (Opt, TExp (mkTag Ctx false 0) TAny)]).
-Definition exA_in : ty := TSeq [(Req, TInt); (Req, TBool)].
-Definition exA_map : omap := [(VOid [1;3;6;1;1], TStr 12); (VOid [1;3;6;1;2], exA_in)].
-Definition exA_wire : bytes := [99;18;48;16;6;4;43;6;1;2;160;8;48;6;2;1;5;1;1;255].
-
-Example exA_wire_ok :
-  enc_open DER true 0 exA_ty 2 (VRec [Some (VOid [1;3;6;1;2]); None; None]) true [(exA_in, VRec [Some (VInt 5); Some (VBool true)])]
-  = Ok exA_wire.
-Proof. vmc. Qed.
-
-Example open_resolved_nonvacuous_A :
-  exists chunk w vs',
-    encode DER true 0 exA_in (VRec [Some (VInt 5); Some (VBool true)]) = Ok chunk /\
-    dec_open BER exA_ty 0 2 exA_map [] true exA_wire
-      = Ok (DV (subst_field exA_ty 2 exA_in) (VRec (set_nth 2 (Some w) vs')), []) /\
-    aeq (abs exA_in w) (abs exA_in (VRec [Some (VInt 5); Some (VBool true)])) /\
-    (false = false -> abs exA_in w = abs exA_in (VRec [Some (VInt 5); Some (VBool true)])) /\
-    nth 0 vs' None = Some (VOid [1;3;6;1;2]) /\
-    aeq (abs exA_ty (VRec vs')) (abs exA_ty (VRec (set_nth 2 (Some (VAny chunk)) [Some (VOid [1;3;6;1;2]); None; None]))) /\
-    (false = false -> abs exA_ty (VRec vs') = abs exA_ty (VRec (set_nth 2 (Some (VAny chunk)) [Some (VOid [1;3;6;1;2]); None; None]))).
-Proof.
-  apply (open_resolved DER BER true 0 false (mode_def DER BER true 0 (or_intror eq_refl) eq_refl eq_refl)
-           exA_ty [(Req, TOid); (Opt, TBool); (Opt, TExp (mkTag Ctx false 0) TAny)] 0%nat 2%nat Opt (TExp (mkTag Ctx false 0) TAny) Req TOid);
-    try vmc; try exact I; try (intros E; discriminate E).
-  - right. exists [(Req, TOid); (Opt, TBool); (Opt, TExp (mkTag Ctx false 0) TAny)]. reflexivity.
-  - intros _ _. vmc.
-  - vm_compute. discriminate.
-  - intros chunk H. vm_compute in H. inversion H; subst. vm_compute. discriminate.
-  - left. reflexivity.
-Qed.
-
-(* with decodeOpenTypes off, and with an unmapped governing value, the same record keeps the complete encoding *)
-Example open_raw_nonvacuous_A :
-  exists chunk vs' fv,
-    encode DER true 0 exA_in (VRec [Some (VInt 5); Some (VBool true)]) = Ok chunk /\
-    dec_open BER exA_ty 0 2 exA_map [] false exA_wire = Ok (DV exA_ty (VRec vs'), []) /\
-    nth 2 vs' None = Some fv /\ octets_of fv = Some chunk /\
-    aeq (abs exA_ty (VRec vs')) (abs exA_ty (VRec (set_nth 2 (Some (VAny chunk)) [Some (VOid [1;3;6;1;2]); None; None]))) /\
-    (false = false -> abs exA_ty (VRec vs') = abs exA_ty (VRec (set_nth 2 (Some (VAny chunk)) [Some (VOid [1;3;6;1;2]); None; None]))).
-Proof.
-  apply (open_raw DER BER true 0 false (mode_def DER BER true 0 (or_intror eq_refl) eq_refl eq_refl)
-           exA_ty [(Req, TOid); (Opt, TBool); (Opt, TExp (mkTag Ctx false 0) TAny)] 0%nat 2%nat Opt (TExp (mkTag Ctx false 0) TAny) Req TOid);
-    try vmc; try exact I; try (intros E; discriminate E).
-  - right. exists [(Req, TOid); (Opt, TBool); (Opt, TExp (mkTag Ctx false 0) TAny)]. reflexivity.
-  - intros _ _. vmc.
-  - vm_compute. discriminate.
-  - left. split; reflexivity.
-Qed.
